@@ -256,6 +256,31 @@ def run(ctx: Ctx) -> int:
         if alphas and len(sample) < ctx.pick(45, 500) and by_group[gi][0][1]["status"] == "ok":
             evs = evgen.gen_events(sch.fixed(backend), ctx.rng("c08ev", gi), 6)
             sample.append(diff.Case(backend, alphas[0][1], evs, [], tag=q, note="alpha-renamed variant"))
+    # Steps written separately whose later step uses the handed-over value MORE THAN ONCE: func_adl fuses them by sharing one
+    # AST node between the uses, the hand-fused spelling repeats the text.  The two packages may legitimately differ as text
+    # (one evaluation vs. two), so both spellings are EXECUTED and must write the rows the query denotes.
+    if not ctx.replay:
+        for backend in sch.BACKENDS:
+            s = sch.fixed(backend)
+            C = s["main"]["coll"]
+            pairs = [(f"ds.Select(lambda e: e.{C}('A').Select(lambda j: j.pt() / 8.0)).Select(lambda pts: (pts.Where(lambda p: p > 3.0).Sum(), pts.Where(lambda q: q > 6.0).Sum()))",
+                      f"ds.Select(lambda e: (e.{C}('A').Select(lambda j: j.pt() / 8.0).Where(lambda p: p > 3.0).Sum(), e.{C}('A').Select(lambda j: j.pt() / 8.0).Where(lambda q: q > 6.0).Sum()))"),
+                     (f"ds.SelectMany(lambda e: e.{C}('A')).Select(lambda j: j.pt() / 8.0).Select(lambda p: (p if p > 4.0 else 0.0, p))",
+                      f"ds.SelectMany(lambda e: e.{C}('A')).Select(lambda j: (j.pt() / 8.0 if j.pt() / 8.0 > 4.0 else 0.0, j.pt() / 8.0))"),
+                     (f"ds.SelectMany(lambda e: e.{C}('A')).Select(lambda j: j.trkPts().Count()).Select(lambda n: (n * 2 if n > 1 else -1, n, n + 1))",
+                      f"ds.SelectMany(lambda e: e.{C}('A')).Select(lambda j: (j.trkPts().Count() * 2 if j.trkPts().Count() > 1 else -1, j.trkPts().Count(), j.trkPts().Count() + 1))"),
+                     (f"ds.Select(lambda e: e.{C}('A').Where(lambda j: j.pt() > 30.0)).Select(lambda g: (g.Count(), g.Select(lambda j: j.eta()), g.Select(lambda j: j.pt()).Sum()))",
+                      f"ds.Select(lambda e: (e.{C}('A').Where(lambda j: j.pt() > 30.0).Count(), e.{C}('A').Where(lambda j: j.pt() > 30.0).Select(lambda j: j.eta()), e.{C}('A').Where(lambda j: j.pt() > 30.0).Select(lambda j: j.pt()).Sum()))"),
+                     (f"ds.Select(lambda e: e.{C}('A').Select(lambda j: j.trkPts().Sum())).Select(lambda ss: ss.Select(lambda x: x if e_ok(x) else 0.0))".replace("e_ok(x)", "x > 50.0"),
+                      f"ds.Select(lambda e: e.{C}('A').Select(lambda j: j.trkPts().Sum() if j.trkPts().Sum() > 50.0 else 0.0))"),
+                     (f"ds.SelectMany(lambda e: e.{C}('A')).Select(lambda j: j.tracks()).Select(lambda ts: (ts.Count(), ts.Where(lambda t: t.pt() > 20.0).Count(), ts.Select(lambda t: t.pt())))",
+                      f"ds.SelectMany(lambda e: e.{C}('A')).Select(lambda j: (j.tracks().Count(), j.tracks().Where(lambda t: t.pt() > 20.0).Count(), j.tracks().Select(lambda t: t.pt())))")]
+            for k, (sep, fused) in enumerate(pairs):
+                for form, text in (("separate", sep), ("hand_fused", fused)):
+                    evs = evgen.gen_events(s, ctx.rng("c08multi", backend, k), 6)
+                    sample.append(diff.Case(backend, text, evs, diff.members_used(s, text), tag={"query": text, "features": {"handed_over_value_used_twice": 2, form: 1, f"k{k}": 1}},
+                                            note=f"handed-over value used more than once, {form} spelling"))
+                    ctx.count("multi_use_spellings_executed")
     if sample:
         before = ctx.counters["evaluations"]
         diff.differential(ctx, eng, sample, judge.on_result)
